@@ -1855,15 +1855,16 @@ def _pop_prelude(stmts, pname, F, even=False):
     """fitness list, count (optionally rounded up to even), tournament call, the loop -> loop or None"""
     fitness = count = selected = None
     loop = None
+    pre_alias = {}
     for st in stmts:
         tgt = st.targets[0].id if isinstance(st, ast.Assign) and len(st.targets) == 1 and isinstance(st.targets[0], ast.Name) else None
         v = getattr(st, 'value', None)
         if tgt and isinstance(v, ast.ListComp) and len(v.generators) == 1 and not v.generators[0].ifs \
-                and isinstance(v.generators[0].target, ast.Name) and ast.unparse(v.generators[0].iter) == 'space.agents' \
+                and isinstance(v.generators[0].target, ast.Name) and _canon(v.generators[0].iter, pre_alias) == 'space.agents' \
                 and ast.unparse(v.elt) == v.generators[0].target.id + '.fit' and fitness is None:
             fitness = tgt
             F['fitnessFromAgents'] = True
-        elif tgt and ast.unparse(v) == f'int(space.n_trees * self.{pname})' and count is None:
+        elif tgt and _canon(v, pre_alias) == f'int(space.n_trees * self.{pname})' and count is None:
             count = tgt
             F['countIsTreesTimesP'] = True
         elif even and count and selected is None and not F['roundedUpToEven'] and _rounds_up(st, count):
@@ -1874,6 +1875,11 @@ def _pop_prelude(stmts, pname, F, even=False):
         elif isinstance(st, ast.For) and selected and loop is None and not st.orelse:
             loop = st
             loop._selected = selected
+            loop._alias = dict(pre_alias)
+        elif tgt and loop is None and isinstance(v, ast.Attribute) and isinstance(v.value, ast.Name) and v.value.id == 'space' \
+                and v.attr in ('trees', 'agents', 'n_trees', 'min_depth', 'max_depth'):
+            # a local naming an attribute of the space for the duration of this call (nothing rebinds it meanwhile)
+            pre_alias[tgt] = v
         else:
             F['extraStmts'] += 1
     return loop
@@ -1884,6 +1890,21 @@ def _rounds_up(st, count):
     forms = [f'if {count} % 2 != 0: {count} += 1', f'if {count} % 2 == 1: {count} += 1', f'if {count} % 2: {count} += 1',
              f'{count} += {count} % 2', f'{count} = {count} + {count} % 2', f'if {count} % 2 != 0: {count} = {count} + 1']
     return u.replace('\n', ' ') in forms or ' '.join(u.split()) in forms
+
+
+def _note_temp(st, alias):
+    """`name = <expr>` / `a, b = <e1>, <e2>`: remembers what the locals stand for; -> True when the statement was one"""
+    if isinstance(st, ast.Assign) and len(st.targets) == 1:
+        t, v = st.targets[0], st.value
+        if isinstance(t, ast.Name):
+            alias[t.id] = _Subst(alias).visit(copy.deepcopy(v))
+            return True
+        if isinstance(t, ast.Tuple) and isinstance(v, ast.Tuple) and len(t.elts) == len(v.elts) and all(isinstance(e, ast.Name) for e in t.elts):
+            new = [_Subst(alias).visit(copy.deepcopy(e)) for e in v.elts]
+            for e, n_ in zip(t.elts, new):
+                alias[e.id] = n_
+            return True
+    return False
 
 
 def _show(F):
@@ -1905,16 +1926,15 @@ def read_mutation(fn):
     s_ = loop.target.id
     slot = f'space.trees[{s_}]'
     size = f'{slot}.n_nodes'
-    alias = {}
+    alias = dict(loop._alias)
 
     def block(stmts_, which):
         """a branch of the guard: temporaries, then the slot assignment"""
         done = False
         for st in stmts_:
-            if isinstance(st, ast.Assign) and len(st.targets) == 1 and isinstance(st.targets[0], ast.Name) and not done:
-                alias[st.targets[0].id] = _Subst(alias).visit(copy.deepcopy(st.value))
+            if not done and _note_temp(st, alias):
                 continue
-            if isinstance(st, ast.Assign) and len(st.targets) == 1 and ast.unparse(st.targets[0]) == slot and not done:
+            if isinstance(st, ast.Assign) and len(st.targets) == 1 and _canon(st.targets[0], alias) == slot and not done:
                 c = _canon(st.value, alias)
                 if which == 'mutate' and c == f'self._mutate(space, {slot}, self._prune_nodes({size}))':
                     F['mutateIntoSlot'] = True
@@ -1932,8 +1952,7 @@ def read_mutation(fn):
             F['extraStmts'] += 1
     guard = None
     for st in body_of(loop):
-        if isinstance(st, ast.Assign) and len(st.targets) == 1 and isinstance(st.targets[0], ast.Name) and guard is None:
-            alias[st.targets[0].id] = _Subst(alias).visit(copy.deepcopy(st.value))
+        if guard is None and _note_temp(st, alias):
             continue
         if isinstance(st, ast.If) and guard is None:
             guard = st
@@ -1959,10 +1978,10 @@ def read_crossover(fn):
         return _show(F)
     stmts = [s for s in body_of(fn) if not (isinstance(s, ast.Expr) and isinstance(s.value, ast.Call) and ast.unparse(s.value.func).startswith('logger.'))]
     loop = _pop_prelude(stmts, 'p_crossover', F, even=True)
-    if loop is None or ast.unparse(loop.iter) != f'g.pairwise({loop._selected})':
+    if loop is None or _canon(loop.iter, loop._alias) != f'g.pairwise({loop._selected})':
         F['extraStmts'] += 1
         return _show(F)
-    alias = {}
+    alias = dict(loop._alias)
     if isinstance(loop.target, ast.Name):
         a_, b_ = f'{loop.target.id}[0]', f'{loop.target.id}[1]'
     elif isinstance(loop.target, ast.Tuple) and len(loop.target.elts) == 2 and all(isinstance(e, ast.Name) for e in loop.target.elts):
@@ -1976,8 +1995,7 @@ def read_crossover(fn):
     want = f'self._cross({sa}, {sb}, self._prune_nodes({na}), self._prune_nodes({nb}))'
     guard = None
     for st in body_of(loop):
-        if isinstance(st, ast.Assign) and len(st.targets) == 1 and isinstance(st.targets[0], ast.Name) and guard is None:
-            alias[st.targets[0].id] = _Subst(alias).visit(copy.deepcopy(st.value))
+        if guard is None and _note_temp(st, alias):
             continue
         if isinstance(st, ast.If) and guard is None and not st.orelse:
             guard = st
@@ -1992,13 +2010,32 @@ def read_crossover(fn):
             F['sizesOfPair'] = True
             F['guardBothMoreThanOne'] = True
             done = False
-            pending = None
+            pending = None      # (name of first offspring, name of second offspring, canonical call, stores done so far)
             for s2 in st.body:
-                if isinstance(s2, ast.Assign) and len(s2.targets) == 1 and isinstance(s2.targets[0], ast.Name) and not done:
-                    alias[s2.targets[0].id] = _Subst(alias).visit(copy.deepcopy(s2.value))
+                if isinstance(s2, ast.Assign) and len(s2.targets) == 1 and isinstance(s2.targets[0], ast.Tuple) and not done and pending is None \
+                        and len(s2.targets[0].elts) == 2 and all(isinstance(e, ast.Name) for e in s2.targets[0].elts) \
+                        and isinstance(s2.value, ast.Call) and _canon(s2.value, alias).startswith('self._cross('):
+                    # `o1, o2 = self._cross(…)` followed by the two stores, first slot first
+                    pending = [s2.targets[0].elts[0].id, s2.targets[0].elts[1].id, _canon(s2.value, alias), 0]
                     continue
-                if isinstance(s2, ast.Assign) and len(s2.targets) == 1 and isinstance(s2.targets[0], ast.Tuple) and not done \
-                        and ast.unparse(s2.targets[0]) == f'({sa}, {sb})':
+                if not done and pending is None and _note_temp(s2, alias):
+                    continue
+                if pending is not None and not done and isinstance(s2, ast.Assign) and len(s2.targets) == 1 and isinstance(s2.value, ast.Name):
+                    tg = _canon(s2.targets[0], alias)
+                    if pending[3] == 0 and tg == sa and s2.value.id == pending[0]:
+                        pending[3] = 1
+                        continue
+                    if pending[3] == 1 and tg == sb and s2.value.id == pending[1]:
+                        c = pending[2]
+                        if c == want:
+                            F['crossIntoSlots'] = True
+                            F['prunedBoth'] = True
+                        elif c.startswith(f'self._cross({sa}, {sb}, '):
+                            F['crossIntoSlots'] = True
+                        done = True
+                        continue
+                if isinstance(s2, ast.Assign) and len(s2.targets) == 1 and isinstance(s2.targets[0], ast.Tuple) and not done and pending is None \
+                        and _canon(s2.targets[0], alias) == f'({sa}, {sb})':
                     c = _canon(s2.value, alias)
                     if c == want:
                         F['crossIntoSlots'] = True
@@ -2034,4 +2071,95 @@ def gen_loops():
                                    'theorem crossLoop_eq : crossLoop = Expected.crossLoop := by decide +kernel',
                                    'end Opy.Gen', ''])
     data['popLoops'] = dict(mutation=mu, crossover=cr)
+    return texts, data
+
+
+# ------------------------------------------------------------------ Space._create_agents / Space._build
+def read_create(fn):
+    F = dict(listKind='.other', elemIsAgentCtor=False, countIsNAgents=False, bestIsDeepCopyOfFirst=False, returnsPair=False, extraStmts=0)
+    if fn is None:
+        F['extraStmts'] = 1
+        return _show(F)
+    stmts = [s for s in body_of(fn) if not (isinstance(s, ast.Expr) and isinstance(s.value, ast.Call) and ast.unparse(s.value.func).startswith('logger.'))]
+    agents = best = None
+    ctor_forms = ('Agent(n_variables=self.n_variables, n_dimensions=self.n_dimensions)', 'Agent(self.n_variables, self.n_dimensions)',
+                  'Agent(n_dimensions=self.n_dimensions, n_variables=self.n_variables)')
+    alias = {}
+    for st in stmts:
+        tgt = st.targets[0].id if isinstance(st, ast.Assign) and len(st.targets) == 1 and isinstance(st.targets[0], ast.Name) else None
+        v = getattr(st, 'value', None)
+        if tgt and agents is None and isinstance(v, ast.Attribute) and isinstance(v.value, ast.Name) and v.value.id == 'self':
+            # a local holding an attribute of the space read before the list is made (a pure read)
+            alias[tgt] = v
+            continue
+        if agents is None and isinstance(st, ast.Assign) and len(st.targets) == 1 and isinstance(st.targets[0], ast.Tuple) and isinstance(v, ast.Tuple) \
+                and len(v.elts) == len(st.targets[0].elts) and all(isinstance(e, ast.Name) for e in st.targets[0].elts) \
+                and all(isinstance(e, ast.Attribute) and isinstance(e.value, ast.Name) and e.value.id == 'self' for e in v.elts):
+            for e, x in zip(st.targets[0].elts, v.elts):
+                alias[e.id] = x
+            continue
+        if tgt and agents is None and isinstance(v, ast.ListComp) and len(v.generators) == 1 and not v.generators[0].ifs \
+                and isinstance(v.generators[0].iter, ast.Call) and ast.unparse(v.generators[0].iter.func) == 'range' \
+                and len(v.generators[0].iter.args) == 1:
+            agents = tgt
+            F['listKind'] = '.comprehension'
+            F['elemIsAgentCtor'] = _canon(v.elt, alias) in ctor_forms
+            F['countIsNAgents'] = _canon(v.generators[0].iter.args[0], alias) == 'self.n_agents'
+        elif tgt and agents is None and isinstance(v, ast.BinOp) and isinstance(v.op, ast.Mult) and isinstance(v.left, ast.List) and len(v.left.elts) == 1:
+            agents = tgt
+            F['listKind'] = '.repeated'
+            F['elemIsAgentCtor'] = _canon(v.left.elts[0], alias) in ctor_forms
+            F['countIsNAgents'] = _canon(v.right, alias) == 'self.n_agents'
+        elif tgt and agents and best is None and ast.unparse(v) == f'copy.deepcopy({agents}[0])':
+            best = tgt
+            F['bestIsDeepCopyOfFirst'] = True
+        elif isinstance(st, ast.Return) and agents and best and st.value is not None and ast.unparse(st.value) in (f'({agents}, {best})', f'{agents}, {best}'):
+            F['returnsPair'] = True
+        else:
+            F['extraStmts'] += 1
+    return _show(F)
+
+
+def read_build(fn):
+    F = dict(lbFromArg=False, ubFromArg=False, agentsFromCreate=False, builtLast=False, extraStmts=0)
+    if fn is None:
+        F['extraStmts'] = 1
+        return _show(F)
+    stmts = [s for s in body_of(fn) if not (isinstance(s, ast.Expr) and isinstance(s.value, ast.Call) and ast.unparse(s.value.func).startswith('logger.'))]
+    args = [a.arg for a in fn.args.args]
+    lo, hi = (args[1], args[2]) if len(args) == 3 else ('lower_bound', 'upper_bound')
+    for k, st in enumerate(stmts):
+        u = ' '.join(ast.unparse(st).split())
+        if u == f'self.lb = np.asarray({lo})' and not F['lbFromArg']:
+            F['lbFromArg'] = True
+        elif u == f'self.ub = np.asarray({hi})' and not F['ubFromArg']:
+            F['ubFromArg'] = True
+        elif u in ('self.agents, self.best_agent = self._create_agents()', '(self.agents, self.best_agent) = self._create_agents()') and not F['agentsFromCreate']:
+            F['agentsFromCreate'] = True
+        elif u == 'self.built = True' and k == len(stmts) - 1:
+            F['builtLast'] = True
+        else:
+            F['extraStmts'] += 1
+    return _show(F)
+
+
+_old_gen_loops14 = gen_loops
+
+
+def gen_loops():
+    texts, data = _old_gen_loops14()
+    sp = f'{REPO}/opytimizer/core/space.py'
+    cr = read_create(find_method(sp, 'Space', '_create_agents'))
+    bd = read_build(find_method(sp, 'Space', '_build'))
+    texts['CreateDefs'] = '\n'.join(['-- GENERATED by harness/translate_loops.py from Space._create_agents and Space._build. Do not edit.',
+                                     'import OpyVerif.Model.CreateProg', 'namespace Opy.Gen', 'open Opy', '',
+                                     f'def createProg : CreateProg := {cr}', f'def buildProg : BuildProg := {bd}', '', 'end Opy.Gen', ''])
+    texts['Create'] = '\n'.join(['-- GENERATED by harness/translate_loops.py: obligations re-decided on every build. Do not edit.',
+                                 'import OpyVerif.Generated.CreateDefs', 'namespace Opy.Gen', 'open Opy',
+                                 '/-- `Space._create_agents` reads as the program `Proofs/CreateProg.createProg_spec` is about -/',
+                                 'theorem createProg_eq : createProg = Expected.createProg := by decide +kernel',
+                                 '/-- `Space._build` stores the bounds, installs what `_create_agents` returns and only then declares the space built -/',
+                                 'theorem buildProg_eq : buildProg = Expected.buildProg := by decide +kernel',
+                                 'end Opy.Gen', ''])
+    data['create'] = dict(create=cr, build=bd)
     return texts, data
